@@ -38,8 +38,8 @@ RouteOk(e, h) ==
     /\ CASE e.route = "translate_rotate" -> NetFn(e.polys) = NetFn(MoveNet(e.a, e.base))
          [] e.route = "remove"           -> SameRings(e) /\ Ids(e.polys) = Ids(e.base) \ {e.a[1]}
          [] e.route = "from_network"     -> /\ SameRings(e)
-                                            /\ MustSet(e.base, LAMBDA P : ShapeRelH(P, e.cut, FALSE, h)) \subseteq Ids(e.polys)
-                                            /\ Ids(e.polys) \subseteq MaySet(e.base, LAMBDA P : ShapeRelH(P, e.cut, FALSE, h))
+                                            /\ MustSet(e.base, LAMBDA P : ShapeRelH(P, e.cut, Noisy(e), h)) \subseteq Ids(e.polys)
+                                            /\ Ids(e.polys) \subseteq MaySet(e.base, LAMBDA P : ShapeRelH(P, e.cut, Noisy(e), h))
          [] OTHER                        -> NetFn(e.polys) = NetFn(e.base)      \* builders (base = the lanelets handed over), copies, files
 
 Clause(e) ==
